@@ -100,6 +100,7 @@ def conditional_table():
         "Conditional(Gt(a + 1, b), a, b)", "Conditional(Gt(2 * a, 3), a, b)", "Conditional(Lt(-a, -1), a, b)",
         "ContinuousConditional(Gt(a, 1), b, c, 1)", "ContinuousConditional(Lt(a, 1), b, c, 0.5)", "ContinuousConditional(Ge(a, b), 1, 0, 2.0)",
         "ContinuousConditional(Le(a - b, 0.5), a, -a, 0.25)", "ContinuousConditional(Gt(t, 1), p, k, 1) * a",
+        "Conditional(Or(Lt(a, -0.375), Ge(a, -0.375)), b, c)", "Conditional(Or(Lt(a, -0.375), Gt(b, 5), Ge(a, -0.375), Eq(a, t)), b, a) * 2 + c", "Conditional(And(Lt(a, -0.375), Ge(a, -0.375)), b, c) - a",
         # conditions that are tautologies / contradictions over the reals, nested and inside sums
         "Conditional(Gt(a, 2), t, Conditional(Or(Gt(b, 1.5), Lt(b, 10.0)), 0.1, c)) + 7.5", "Conditional(Or(Gt(b, 1.5), Lt(b, 10.0)), 0.1, c) * a",
         "Conditional(Gt(a, 2), t, Conditional(And(Gt(b, 10.0), Lt(b, 1.5)), 0.1, c)) + 7.5", "1 + Conditional(Lt(a, 1), Conditional(Or(Ge(b, 1), Lt(b, 1)), 2, 3), Conditional(And(Ge(c, 2), Lt(c, 2)), 4, 5))",
